@@ -70,19 +70,33 @@ Shift = node_mod.Shift
 
 
 def _extract_converter():
-    """to_20210209 taken from utils/convert.py by ast: importing that file
-    would create a log file inside the repository."""
+    """to_20210209 taken from utils/convert.py by ast: importing that file would create a
+    log file inside the repository (daiquiri.setup at module level).  The module's import
+    statements, its undecorated functions and its constant assignments are executed; calls
+    at module level and the click command are not.  `logger` is a silent stand-in."""
     path = os.path.join(REPO, "utils", "convert.py")
     with open(path, "r", encoding="utf-8") as f:
         src = f.read()
     mod = ast.parse(src, path)
+    body = []
     for item in mod.body:
-        if isinstance(item, ast.FunctionDef) and item.name == "to_20210209":
-            ns = {}
-            code = compile(ast.Module(body=[item], type_ignores=[]), path, "exec")
-            exec(code, ns)
-            return ns["to_20210209"]
-    raise RuntimeError("to_20210209 not found in utils/convert.py")
+        if isinstance(item, (ast.Import, ast.ImportFrom)):
+            body.append(item)
+        elif isinstance(item, (ast.FunctionDef, ast.ClassDef)) and not item.decorator_list:
+            body.append(item)
+        elif isinstance(item, ast.Assign) and isinstance(item.value, ast.Constant):
+            body.append(item)
+    ns = {"__name__": "convert_extracted", "logger": logging.getLogger("convert_extracted")}
+    try:
+        exec(compile(ast.Module(body=body, type_ignores=[]), path, "exec"), ns)
+    except ImportError:
+        # an import the sandbox lacks: fall back to the functions alone
+        ns = {"__name__": "convert_extracted", "logger": logging.getLogger("convert_extracted")}
+        only = [b for b in body if isinstance(b, (ast.FunctionDef, ast.ClassDef))]
+        exec(compile(ast.Module(body=only, type_ignores=[]), path, "exec"), ns)
+    if "to_20210209" not in ns:
+        raise RuntimeError("to_20210209 not found in utils/convert.py")
+    return ns["to_20210209"]
 
 
 to_20210209 = _extract_converter()
